@@ -1,5 +1,6 @@
 import WebpVerif.Spec.Prefix
 import WebpVerif.Spec.Lossless
+import WebpVerif.Model.Huffman
 import WebpVerif.Model.Util
 namespace DrvHuf
 open Util Prefix
@@ -28,22 +29,40 @@ def decodeManySpec (c : VP8L.Code) : Nat → VP8L.Bits → List Nat → List Nat
     | some (s, b') => decodeManySpec c n b' (s :: acc)
     | none => (acc.reverse, false)
 
-/-- `hufdec n lengths hexbytes`: the specification's symbol decoder (`Prefix.decodeSymbol`, with
-    the canonical code words computed once) on a byte string -/
+/-- the model of the crate's `HuffmanTree` on the same input -/
+def decodeManyModel (b : Huff.Built) : Nat → List Nat → List Nat → List Nat × Bool
+  | 0, _, acc => (acc.reverse, true)
+  | n + 1, bits, acc =>
+    match Huff.readSym b bits with
+    | some (s, rest) => decodeManyModel b n rest (s :: acc)
+    | none => (acc.reverse, false)
+
+def modelReply (ls : List Nat) (n : Nat) (bytes : Array Nat) : String :=
+  match Huff.build ls with
+  | .err => "invalid"
+  | b =>
+    let (syms, ok) := decodeManyModel b n (bitsOf bytes) []
+    s!"syms={joinNats syms} end={if ok then "ok" else "eof"}"
+
+/-- the specification part of the reply (`Prefix.decodeSymbol`, with the canonical code words
+    computed once) -/
+def specReply (n : Nat) (ls : List Nat) (bytes : Array Nat) : String :=
+  if !validLengths ls then (if VP8L.Code.valid ls.toArray then "SPEC-MISMATCH validity" else "invalid") else
+  let single := (ls.filter (· ≠ 0)).length = 1
+  let (syms, ok) := decodeMany ls ls.toArray (codeTable ls) single (ls.findIdx (· ≠ 0)) n (bitsOf bytes) []
+  -- cross-check inside Lean: the proof-friendly decoder and the executable specification agree
+  let (syms2, ok2) := decodeManySpec ls.toArray n { data := bytes, pos := 0 } []
+  if VP8L.Code.valid ls.toArray ≠ true ∨ syms2 ≠ syms ∨ ok2 ≠ ok then
+    s!"SPEC-MISMATCH prefix={joinNats syms}/{ok} lossless={joinNats syms2}/{ok2}"
+  else s!"syms={joinNats syms} end={if ok then "ok" else "eof"}"
+
+/-- `hufdec n lengths hexbytes` → `<specification> ;; <model of HuffmanTree>` -/
 def handle (args : List String) : Option String :=
   match args with
   | ["hufdec", n, lengths, hex] => do
     let n ← n.toNat?; let ls ← parseNats lengths
     let bytes ← if hex == "-" then some #[] else parseHex hex
-    if !validLengths ls then some (if VP8L.Code.valid ls.toArray then "SPEC-MISMATCH validity" else "invalid") else
-    let single := (ls.filter (· ≠ 0)).length = 1
-    let (syms, ok) := decodeMany ls ls.toArray (codeTable ls) single (ls.findIdx (· ≠ 0)) n (bitsOf bytes) []
-    -- cross-check inside Lean: the proof-friendly decoder and the executable specification agree
-    let (syms2, ok2) := decodeManySpec ls.toArray n { data := bytes, pos := 0 } []
-    if VP8L.Code.valid ls.toArray ≠ true ∨ syms2 ≠ syms ∨ ok2 ≠ ok then
-      some (s!"SPEC-MISMATCH prefix={joinNats syms}/{ok} lossless={joinNats syms2}/{ok2}")
-    else
-    some (s!"syms={joinNats syms} end={if ok then "ok" else "eof"}")
+    some (specReply n ls bytes ++ " ;; " ++ modelReply ls n bytes)
   | _ => none
 
 end DrvHuf
